@@ -48,7 +48,8 @@ pub fn c01_shapes() -> Vec<ShapeSpec> {
         v.push(ShapeSpec::Polygon(n));
     }
     v.push(ShapeSpec::Circle);
-    for &(r, a, d) in [(0.637556, 120., 1.), (0.7, 180., 1.5), (1., 180., 2.), (0.5, 60., 1.2)].iter() {
+    // (the last two: small arms, so the disc reaching farthest is not the one whose centre is farthest)
+    for &(r, a, d) in [(0.637556, 120., 1.), (0.7, 180., 1.5), (1., 180., 2.), (0.5, 60., 1.2), (0.3, 120., 1.), (0.2, 90., 1.1)].iter() {
         v.push(ShapeSpec::Trimer(r, a, d));
     }
     v
@@ -344,7 +345,7 @@ pub fn c01(tier: Tier) -> ! {
     run.set("violating_states", tot.fail_count);
     run.set("violations_through_images_beyond_first_shell", tot.far_image_cases);
     run.set("exhaustive", true);
-    run.set("rule", "three finite lattices of real states per (7 groups x 11 shapes): (1) generic grid of cell ratio x angle (around the old heuristic's thresholds) x site coordinates dense near 0, +-1/4, +-1/2 x orientations x a geometric length ladder from dilute to denser than physically possible; (2) displacement-directed: for every pair of copies the site is solved so that the pair sits at a chosen Cartesian displacement |v| < 2R modulo the lattice, the wrap deciding which image realises it; (3) special positions reached by bound clamping and the initial site under pure cell shrinking. Every state goes through the crate's deserialiser and score(); every scored state is judged by a brute-force search over all images within 2R (separating-axis / disc-distance depth > 1e-9). Non-trivial = scored states in which at least one pair of distinct images lies within 2R.");
+    run.set("rule", "three finite lattices of real states per (7 groups x 13 shapes): (1) generic grid of cell ratio x angle (around the old heuristic's thresholds) x site coordinates dense near 0, +-1/4, +-1/2 x orientations x a geometric length ladder from dilute to denser than physically possible; (2) displacement-directed: for every pair of copies the site is solved so that the pair sits at a chosen Cartesian displacement |v| < 2R modulo the lattice, the wrap deciding which image realises it; (3) special positions reached by bound clamping and the initial site under pure cell shrinking. Every state goes through the crate's deserialiser and score(); every scored state is judged by a brute-force search over all images within 2R (separating-axis / disc-distance depth > 1e-9). Non-trivial = scored states in which at least one pair of distinct images lies within 2R.");
     run.set("explanation", "states = lattice states the crate scored plus distinct states of the chained-stage search; transitions = lattice states evaluated plus real optimiser stages executed. The search (engine rsx) starts from the initial and a dense state of every group x hard shape, takes 28 scripted actions per state to the reported depth, and applies the same all-images oracle to every state the optimiser scores on the way, accepted or merely proposed.");
     run.sample(json!({"group": "p2", "shape": "trimer(0.637556,120,1)", "params": {"length": 5.6286, "ratio": 0.51, "angle": PI / 2., "x": -0.2856, "y": 0.472, "phi": 5.364}, "note": "copies 0 and 1 overlap through image (-1,2)"}));
     run.require(tot.scored > 1000 && tot.nontrivial > 1000, "too few scored / non-trivial states");
